@@ -85,6 +85,7 @@ int vnet_noanswer_open(struct vnet_noanswer *na, const char *ip, int port)
 
 void vnet_noanswer_release(struct vnet_noanswer *na)
 {
+    fcntl(na->lfd, F_SETFL, fcntl(na->lfd, F_GETFL, 0) | O_NONBLOCK);     /* never wait for a connection that is not queued */
     for (int i = 0; i < 4; i++) {
         int fd = accept4(na->lfd, NULL, NULL, SOCK_NONBLOCK);
         if (fd < 0) break;
